@@ -770,24 +770,33 @@ def _serve_socket_threaded(
     # Drive accept on a short timeout and check a shutdown flag instead.
     sock.settimeout(0.5)
 
-    def _close_listener_if_idle() -> None:
+    # Timer.cancel() cannot stop a callback that has already fired and is waiting
+    # for state_lock, so every arm/cancel bumps a generation and the callback
+    # ignores itself when it is no longer the current timer.
+    timer_generation = 0
+
+    def _close_listener_if_idle(generation: int) -> None:
         nonlocal timer, shutdown_requested
         with state_lock:
+            if generation != timer_generation:
+                return
             timer = None
             if conn_count != 0:
                 return
             shutdown_requested = True
 
     def _arm_timer_locked(seconds: float) -> None:
-        nonlocal timer
+        nonlocal timer, timer_generation
         if timer is not None:
             timer.cancel()
-        timer = threading.Timer(seconds, _close_listener_if_idle)
+        timer_generation += 1
+        timer = threading.Timer(seconds, _close_listener_if_idle, args=(timer_generation,))
         timer.daemon = True
         timer.start()
 
     def _cancel_timer_locked() -> None:
-        nonlocal timer
+        nonlocal timer, timer_generation
+        timer_generation += 1
         if timer is not None:
             timer.cancel()
             timer = None
@@ -829,6 +838,9 @@ def _serve_socket_threaded(
             conn.settimeout(None)  # accepted connections must be blocking
             with state_lock:
                 conn_count += 1
+                # The idle timer may have fired just before this accept: the
+                # request to shut down was derived from conn_count == 0.
+                shutdown_requested = False
                 _cancel_timer_locked()
             t = threading.Thread(
                 target=_handle,
